@@ -7,6 +7,7 @@ the hashed region must make verification falsy or raise."""
 import itertools
 
 from mc.core import Res
+from mc import adapt as A
 from mc import keys as K
 from refpgp import sig as rsig, wire, keys as rkeys
 
@@ -135,7 +136,7 @@ class Prop(object):
         r.transitions += 1
         try:
             s = pgpy.PGPSignature.from_blob(pk)
-            if s._signature is None:
+            if A.sig_packet(s) is None:
                 raise ValueError('not loaded')
         except Exception as e:
             r.rejected += 1
@@ -185,7 +186,7 @@ class Prop(object):
                     r.transitions += 1
                     try:
                         s2 = pgpy.PGPSignature.from_blob(wire.packet(2, b))
-                        ok = s2._signature is not None and bool(pub.verify(DOC, s2))
+                        ok = A.sig_packet(s2) is not None and bool(pub.verify(DOC, s2))
                         oc = 'truthy' if ok else 'falsy'
                     except Exception:
                         oc = 'error'
